@@ -13,9 +13,8 @@ TYPES = ['Aa', 'Bb', 'Cc', 'Dd']
 QUICK_ATOMS = ('down', 'peers', 'rights', 'owner', 'vcut', 'vdown')
 PLANS = {
     'quick': [(1, None, 3, 2, True, True), (2, QUICK_ATOMS, 3, 2, False, False)],
-    'thorough': [(1, None, 4, 2, True, True), (2, None, 3, 2, True, False),
-                 (2, None, 4, 2, False, False), (2, None, 3, 3, False, False),
-                 (3, ('down', 'peers', 'rights', 'lefts', 'vdown'), 3, 2, False, False)],
+    'thorough': [(1, None, 4, 2, True, True), (2, None, 3, 2, True, False), (2, QUICK_ATOMS, 3, 3, False, False),
+                 (3, ('down', 'peers', 'rights', 'vdown'), 3, 2, False, False)],
 }
 
 _BASE = sem.Lang(families.sem_lang())
